@@ -671,6 +671,7 @@ func (mgr *Manager) importPcapJob(filenames []string, nextStreamID uint64, exist
 			mgr.addedStreamsDuringTaggingJob.Or(*addedStreams)
 			mgr.invalidateTags(*updatedStreams, *resetStreams, *addedStreams)
 			mgr.invalidateConverters(updatedStreams)
+			mgr.invalidateConverters(resetStreams)
 		}
 		// remove finished job from queue
 		mgr.importJobs = mgr.importJobs[processedFiles:]
